@@ -287,6 +287,12 @@ func (t *stringType) SerializationString() string {
 	return t.String()
 }
 
+// A String type with a size constraint has its own text form; the method of the embedded stringType
+// words the embedded type, which is String
+func (t *scStringType) SerializationString() string {
+	return t.String()
+}
+
 func (t *stringType) String() string {
 	return px.ToString2(t, None)
 }
